@@ -9,7 +9,7 @@ ID = "C27"
 CRATE = "hiface"
 RUN_MODULE = "C27.Run"
 RULE = ("interface DESCRIPTIONS (methods, signals, properties over an 11-type menu; doc attribute texts drawn from 14 samples incl. "
-        "XML-special characters, blank and multi-line texts, `--`): 8 corpus descriptions + 12 (thorough: 48) from the seed, Rust "
+        "XML-special characters, blank and multi-line texts, `--`, `---`, `----`, `-->`, a trailing `-`): 8 corpus descriptions + 12 (thorough: 48) from the seed, Rust "
         "source GENERATED from each, compiled against /repo; per description 5..6 node-tree layouts (root, nested, siblings, other "
         "interfaces in between, empty). Per layout: Introspect at every registered, intermediate and one unknown path, read back by "
         "zbus_xml (canonical infoset), by Python's expat through minidom AND ElementTree (strict well-formedness + the same canonical "
@@ -21,8 +21,7 @@ TRUSTED = ["the description -> Rust source emitter (props/ifacegen.py) and the s
            "harness/hiface; Python's expat as the strict XML parser; zbus_xml as the library's own reader",
            "quick-xml's tokenizer below the infoset boundary (C34's assumption)",
            "the macros are MODELLED; the tie is the byte-for-byte comparison of the generated interface's XML and of the wire types"]
-ASSUMPTIONS = ["doc texts contain no `-->` (it ends the comment early and turns the rest of the text into markup: see docs/C27.md) and no "
-               "non-ASCII white space",
+ASSUMPTIONS = ["doc texts contain no non-ASCII white space (is_blank is modelled for ASCII)",
                "member and argument names are Rust identifiers (no XML-special characters can reach an attribute value)",
                "the node tree is built by ObjectServer::at only; interfaces and children come out in HashMap order (every comparison sorts)"]
 
@@ -38,11 +37,11 @@ LEVEL_TEXT = ("Theorems in coq/theories/Properties/C27.v over ALL interface desc
               "the standard and the registered interfaces and exactly the children; for every method the declared input types are "
               "exactly the accepted ones (up to two structure re-groupings) and the declared output types are the sent ones for tuples "
               "and non-structure types; signals and properties likewise (properties: every type but `v`); every comment written is "
-              "well-formed unless a doc text contains `--`. Refuted with witnesses: `--` in a doc text; `v`-typed properties. The macros "
+              "well-formed whatever the doc texts (full strength since fix e95e1976: the `--` rewriting loop is proved to leave no `--` "
+              "after at most two passes, for every byte string). Refuted with a witness: `v`-typed properties. The macros "
               "are modelled as a function from the description to the item tree and to the exact text; the tie to the real macros is "
               "the byte-for-byte comparison of the XML of generated programs, read back by zbus_xml and by a strict parser.")
-LEVEL_NOTE = ("partial: well-formedness is refuted for doc texts containing `--` (written raw inside <!-- -->); declared vs. wire types "
-              "are refuted for properties of Rust type OwnedValue and for the argument leniencies of C26 (no-input methods, (us) "
-              "re-grouping); single-structure returns are exempted by the property text. 'Read back by the library's own model' is "
-              "checked on every run (zbus_xml parses every generated document) and modelled through C34's reader, not proved here. "
+LEVEL_NOTE = ("partial: declared vs. wire types are refuted for properties of Rust type OwnedValue and for the argument leniencies of C26 (no-input methods, (us) "
+              "re-grouping); single-structure returns are exempted by the property text. Well-formedness (C27_wellformed), read-back "
+              "(C27_reads_back, through C34's reader model; quick-xml's tokenizer is assumed) and lists-exactly are at full strength. "
               "Trusted: Coq kernel, the hand-written model, the emitter, harness hiface, expat.")
